@@ -245,7 +245,21 @@ pub fn mover_program(kind: usize, n: usize) -> String {
     s.push_str(&format!("let src: array<string> = [{}]\n", elems.join(", ")));
     // some garbage so that the heap is worth collecting
     s.push_str("var w = 0\nwhile w < 4 {\n  let g = \"junk\" .. w\n  w = w + 1\n}\n");
-    match kind % 9 {
+    match kind % 12 {
+        9 | 10 | 11 => {
+            // a heap string that has just left its array lives ONLY in a string-operand register of a multi-step string
+            // instruction (comparison / concat_strings walk one byte per step): long common prefixes keep the instruction
+            // running while the collector finishes marking and sweeps
+            let long: Vec<String> = (0..n).map(|j| format!("\"common-prefix-common-prefix-common-\" .. {}", j * 7 % 10)).collect();
+            s.push_str(&format!("let lsrc: array<string> = [{}]\n", long.join(", ")));
+            s.push_str("var hits = 0\n");
+            match kind % 12 {
+                9 => s.push_str("while lsrc.len() > 0 {\n  if lsrc.pop() < \"common-prefix-common-prefix-common-5\" {\n    hits = hits + 1\n  }\n}\n"),
+                10 => s.push_str("while lsrc.len() > 1 {\n  if lsrc.pop() == lsrc.pop() {\n    hits = hits + 1\n  }\n}\n"),
+                _ => s.push_str("while lsrc.len() > 0 {\n  let t = concat_strings(\"common-prefix-common-prefix-\", lsrc.pop())\n  if t >= \"common-prefix-common-prefix-common-prefix-common-prefix-common-4\" {\n    hits = hits + 1\n  }\n}\n"),
+            }
+            s.push_str("println(hits)\n");
+        }
         4 => {
             // freshly allocated wrappers (born during marking) around an old value that has just left the heap
             s.push_str("type Tw = | Leaf(string) | Other(int)\nlet keep: array<Tw> = []\n");
